@@ -239,3 +239,16 @@ Definition step (c : cfg) (s : state) (i : item) : state * (result * N) :=
 
 Definition run_from (c : cfg) (s : state) (h : list item) : state := fold_left (fun s i => fst (step c s i)) h s.
 Definition run (c : cfg) (init : N) (h : list item) : state := run_from c (boot init) h.
+
+(* ---- run-length form of a history (case files of harness/c06 only) ------------------------------------ *)
+(* An idle chain (or a busy one) commits hundreds of blocks of the same kind in a row; the case files write such
+   a stretch as ONE item.  It is not a new behaviour: it expands, inside Coq, to n single IPublish items, so the
+   pending ranges, DA calls and watermarks the model computes — and every theorem of Props/C06.v, which
+   quantify over all [list item] — are those of the expanded history. *)
+Inductive hitem :=
+| HI (i : item)
+| HPublishN (nonempty : bool) (n : N).    (* n times IPublish nonempty *)
+
+Definition expand (h : hitem) : list item :=
+  match h with HI i => [i] | HPublishN b n => repeat (IPublish b) (N.to_nat n) end.
+Definition expand_hist (h : list hitem) : list item := flat_map expand h.
